@@ -241,8 +241,10 @@ pub fn c10() -> Outcome {
         }
     } }
     // instance -> parametric -> instance (no parameters)
-    for (ii, i) in small_instances().into_iter().enumerate() {
+    // (every second instance carries recorded parameter values, as the result of an earlier with_parameters does)
+    for (ii, mut i) in small_instances().into_iter().enumerate() {
         n += 1; d.insert((100 + ii, 0));
+        if ii % 2 == 1 { let mut q = v1::Parameters::default(); q.entries = [(100u64, 3.0), (101, 1.0), (555, 0.25)].into_iter().collect(); i.parameters = Some(q); }
         let p: v1::ParametricInstance = i.clone().into();
         let back = match p.with_parameters(v1::Parameters::default()) { Ok(b) => b, Err(e) => fail!(n, d, "round trip through ParametricInstance failed: {e}") };
         if back.decision_variable_dependency != i.decision_variable_dependency || back.constraint_hints != i.constraint_hints || back.description != i.description { fail!(n, d, "round trip through ParametricInstance lost or changed the dependency map, the constraint hints or the description: dependencies {:?} -> {:?}", i.decision_variable_dependency.keys().collect::<Vec<_>>(), back.decision_variable_dependency.keys().collect::<Vec<_>>()); }
@@ -344,12 +346,14 @@ pub fn c13() -> Outcome {
             vec![con(4, Equality::LessThanOrEqualToZero, f.clone()), con(5, Equality::EqualToZero, f_of(F::Linear(lin(&[(1, 1.0)], 0.0)))), con(6, Equality::LessThanOrEqualToZero, f_of(F::Linear(lin(&[(7, 1.0), (1, 1.0)], -1.0))))]);
         i.objective = Some(f_of(F::Constant(0.0))); i
     };
+    // the constraint list is in user order (restore_constraint appends): the same instance with its constraints listed as [4,5,6], [6,5,4], [5,6,4]
+    let mk_o = |f: &Function, order: usize| { let mut i = mk(f); match order % 3 { 1 => i.constraints.reverse(), 2 => i.constraints.rotate_left(1), _ => {} } i };
     let lattice = || { let mut v = vec![]; for a in 0..=3 { for b in 0..=1 { for c in -2..=2 { v.push([a as f64, b as f64, c as f64]); } } } v };
     let fv = |f: &Function, x: &[f64; 3], extra: Option<(u64, f64)>| { let mut s: HashMap<u64, f64> = [(1u64, x[0]), (2, x[1]), (3, x[2])].into_iter().collect(); if let Some((k, v)) = extra { s.insert(k, v); } ref_val(f, &s).unwrap() };
     for (fi, f) in fs.iter().enumerate() { for which in 0..2 { for limit in [3u64, 4, 1000] {
         n += 1; d.insert((fi, which, limit));
         if fi == 2 && limit == 1000 { note(|| format!("{} on f={f:?} <= 0 with x1 in [0,3], x2 binary, x3 in [-2,2]; every lattice point and slack value", if which == 0 { "convert_inequality_to_equality_with_integer_slack" } else { "add_integer_slack_to_inequality" })); }
-        let mut i = mk(f); let before = i.clone();
+        let mut i = mk_o(f, fi + which + limit as usize); let before = i.clone();
         let lo = lattice().iter().map(|x| fv(f, x, None)).fold(f64::INFINITY, f64::min);
         let hi = lattice().iter().map(|x| fv(f, x, None)).fold(f64::NEG_INFINITY, f64::max);
         let r: Result<Option<f64>, String> = if which == 0 { i.convert_inequality_to_equality_with_integer_slack(4, limit).map(|_| None).map_err(|e| e.to_string()) } else { i.add_integer_slack_to_inequality(4, limit).map_err(|e| e.to_string()) };
@@ -367,7 +371,7 @@ pub fn c13() -> Outcome {
                     // only allowed when the inequality holds on the whole box
                     if hi > 0.0 && lattice().iter().any(|x| fv(f, x, None) > 1e-9) { fail!(n, d, "constraint {f:?} <= 0 was moved to removed_constraints as 'always satisfied' but it is violated at a lattice point (max f = {hi})"); }
                     let rc = i.removed_constraints.iter().find(|r| r.constraint.as_ref().map(|c| c.id) == Some(4));
-                    if rc.and_then(|r| r.constraint.clone()) != Some(before.constraints[0].clone()) { fail!(n, d, "the removed constraint is not the unchanged original"); }
+                    if rc.and_then(|r| r.constraint.clone()) != before.constraints.iter().find(|c| c.id == 4).cloned() { fail!(n, d, "the removed constraint is not the unchanged original"); }
                     if i.decision_variables != before.decision_variables { fail!(n, d, "a slack variable was added although the constraint was removed"); }
                     continue;
                 }
@@ -461,6 +465,11 @@ pub fn c15() -> Outcome {
                     if cands.is_empty() { fail!(n, d, "best feasible (unrelaxed={which}) returned {id} although no sample is feasible"); }
                     let k = match ids.iter().position(|x| *x == id) { Some(k) => k, None => fail!(n, d, "returned unknown sample id {id}") };
                     if !feas[&id] { fail!(n, d, "best feasible (unrelaxed={which}, sense {sense:?}, legacy={legacy}) returned sample {id} which is not feasible in that sense: {feas:?}"); }
+                    // the Solution-returning call agrees with the id-returning one (also on the legacy field layout)
+                    match if which == 0 { ss.best_feasible() } else { ss.best_feasible_unrelaxed() } {
+                        Err(e) => fail!(n, d, "best_feasible{} (sense {sense:?}, legacy={legacy}) failed ({e}) although best_feasible{}_id returned sample {id}", if which == 0 { "" } else { "_unrelaxed" }, if which == 0 { "" } else { "_unrelaxed" }),
+                        Ok(sol) => if sol.objective != objs[k] || sol.feasible != feas_all[&id] || sol.feasible_relaxed != Some(feas_rel[&id]) { fail!(n, d, "best_feasible{} (sense {sense:?}, legacy={legacy}) returned objective {} feasible {} relaxed {:?}; sample {id} has objective {} feasible {} relaxed {}", if which == 0 { "" } else { "_unrelaxed" }, sol.objective, sol.feasible, sol.feasible_relaxed, objs[k], feas_all[&id], feas_rel[&id]); },
+                    }
                     let beaten = cands.iter().any(|c| if sense == v1::instance::Sense::Minimize { objs[*c] < objs[k] } else { objs[*c] > objs[k] });
                     if beaten { fail!(n, d, "best feasible (unrelaxed={which}, sense {sense:?}) returned sample {id} with objective {} but another feasible sample is better: objectives {objs:?}, feasible {feas:?}", objs[k]); }
                 }
@@ -734,6 +743,47 @@ pub fn c02() -> Outcome {
         if let Err(e) = check("Quadratic::from(parameter)", &Function::from(v1::Quadratic::from(&p)), &fp, None, &|a, _| a) { fail!(n, d, "{e}"); }
         if let Err(e) = check("Polynomial::from(parameter)", &Function::from(v1::Polynomial::from(&p)), &fp, None, &|a, _| a) { fail!(n, d, "{e}"); }
         if let Err(e) = check("Function::from(parameter)", &Function::from(&p), &fp, None, &|a, _| a) { fail!(n, d, "{e}"); }
+    }
+    // coefficients between machine epsilon and 1e-8 are coefficients ("the documented dropping of coefficients below machine epsilon" is the only dropping):
+    // compared coefficient by coefficient against an independent expansion of the operands' term lists
+    {
+        fn terms_of(f: &Function) -> BTreeMap<Vec<u64>, f64> {
+            let mut m: BTreeMap<Vec<u64>, f64> = BTreeMap::new();
+            let mut add = |mut ids: Vec<u64>, c: f64| { ids.sort(); *m.entry(ids).or_insert(0.0) += c; };
+            match f.function.as_ref() {
+                None => {}
+                Some(F::Constant(c)) => add(vec![], *c),
+                Some(F::Linear(l)) => { add(vec![], l.constant); for t in &l.terms { add(vec![t.id], t.coefficient); } }
+                Some(F::Quadratic(q)) => { if let Some(l) = &q.linear { add(vec![], l.constant); for t in &l.terms { add(vec![t.id], t.coefficient); } } for k in 0..q.values.len() { add(vec![q.rows[k], q.columns[k]], q.values[k]); } }
+                Some(F::Polynomial(p)) => { for t in &p.terms { add(t.ids.clone(), t.coefficient); } }
+                Some(_) => {}
+            }
+            m
+        }
+        let comb = |a: &BTreeMap<Vec<u64>, f64>, b: &BTreeMap<Vec<u64>, f64>, op: u8| -> BTreeMap<Vec<u64>, f64> {
+            let mut m: BTreeMap<Vec<u64>, f64> = BTreeMap::new();
+            match op { 0 | 1 => { for (k, v) in a { *m.entry(k.clone()).or_insert(0.0) += v; } for (k, v) in b { *m.entry(k.clone()).or_insert(0.0) += if op == 0 { *v } else { -*v }; } }
+                       _ => { for (ka, va) in a { for (kb, vb) in b { let mut k = ka.clone(); k.extend(kb.iter().cloned()); k.sort(); *m.entry(k).or_insert(0.0) += va * vb; } } } }
+            m
+        };
+        let small: Vec<Function> = vec![
+            f_of(F::Linear(lin(&[(1, 1e-9)], 2.0))), f_of(F::Linear(lin(&[(3, 2.5e-9), (2, 1.0)], 1.0))), f_of(F::Linear(lin(&[(4, 1e-4)], 1.0))),
+            f_of(F::Quadratic(quad(&[(2, 4, 3e-10)], Some(lin(&[(1, 1.0)], 0.0))))), f_of(F::Quadratic(quad(&[(1, 2, 1.0), (3, 3, 4e-12)], None))),
+            f_of(F::Polynomial(poly(&[(&[1, 2, 3], 1.0)]))), f_of(F::Polynomial(poly(&[(&[1, 2, 3], 1e-5), (&[], 1.0)]))), f_of(F::Polynomial(poly(&[(&[1, 2, 3], 7e-13), (&[2], 1e-10), (&[], 1.0)]))),
+        ];
+        for (ai, a) in small.iter().enumerate() { for (bi, b) in small.iter().enumerate() { for op in 0u8..3 {
+            n += 1; d.insert((3000 + ai, bi * 3 + op as usize));
+            let r = match op { 0 => a.clone() + b.clone(), 1 => a.clone() - b.clone(), _ => a.clone() * b.clone() };
+            let want = comb(&terms_of(a), &terms_of(b), op); let got = terms_of(&r);
+            let mut it: BTreeMap<Vec<u64>, f64> = BTreeMap::new(); for (ids, c) in &r { *it.entry(ids.iter().cloned().collect()).or_insert(0.0) += c; }
+            for (k, w) in &want {
+                if w.abs() <= 4.0 * f64::EPSILON { continue; }     // at or near the documented threshold: may be dropped
+                for (src, m) in [("result message", &got), ("term iterator", &it)] {
+                    let g = m.get(k).copied().unwrap_or(0.0);
+                    if (g - w).abs() > 1e-9 * w.abs() { fail!(n, d, "{} of a={a:?} and b={b:?}: the coefficient of the monomial {k:?} is {w:e} in the exact result but {g:e} in the {src} of {r:?} (only coefficients below machine epsilon may be dropped)", ["sum", "difference", "product"][op as usize]); }
+                }
+            }
+        } } }
     }
     // operands of very different scale, same kind on both sides (no upcast, whose collect drops coefficients <= EPSILON - the documented dropping): a coefficient
     // below machine epsilon is still a coefficient of the operand, the product's coefficient (1.0) is not small, and a * b must equal b * a
